@@ -582,6 +582,11 @@ class Interp:
             self.exec(s, fr)
 
     def exec(self, s, fr):
+        cut = getattr(self.contract, "cut_before", None)
+        if cut is not None and cut(s, fr):
+            # region contract: the postcondition is stated at this program point (the rest of the function is outside the region)
+            self.contract.at_cut(self.ctx, self, fr)
+            raise PathEnd()
         m = getattr(self, "s_" + type(s).__name__, None)
         if m is None:
             raise Unsupported(f"statement {type(s).__name__} at line {s.lineno}")
